@@ -212,7 +212,6 @@ pub fn run(t: &[&str]) -> String {
             }
             if recs.is_empty() { "-".into() } else { recs.join(";") }
         }
-        ["dbgfsz", level, x] => format!("{}", compress_segment_configured(&unhex(x), level.parse().unwrap()).unwrap().len()),
         ["wref", ..] | ["wpack", ..] | ["lpart", ..] => "MODEL-ONLY".into(),
         _ => "HARNESS-ERROR bad case".into(),
     }
